@@ -340,6 +340,10 @@ class ODLDecoder(PVLDecoder):
             if match is not None:
                 gd = match.groupdict(default=0)
                 dt = super().decode_datetime(gd["dt"])
+                if not hasattr(dt, "tzinfo"):
+                    # Only times and datetimes can carry a time zone offset,
+                    # the text before the sign was a date (e.g. 2001-020-10).
+                    raise ValueError
                 offset = timedelta(
                     hours=int(gd["hour"]), minutes=int(gd["minute"])
                 )
